@@ -1,0 +1,62 @@
+//go:build verif
+
+package meta
+
+// Contracts for the govc verifier (see /verif/DESIGN.md). Comment-only: declares nothing.
+
+// lo.Union(a, b): duplicate-free list whose element set is the union (samber/lo v1.27 source).
+//@ trusted func github.com/samber/lo.Union
+//@   params list1 list2
+//@   ensures forall x string :: x in setOf(result) <==> (x in setOf(list1) || x in setOf(list2))
+//@   modifies nothing
+
+//@ lockonly ReplicateMeteImpl.metaLock protects ReplicateMeteImpl.dropCollectionMsgs, ReplicateMeteImpl.dropPartitionMsgs
+
+//@ func GetMetaKey
+//@   props C17 C12
+//@   ensures result == "task_msg/" + taskID + "/" + msgID
+//@   modifies nothing
+//@   panics never
+
+//@ lemma metaKeyInjective C17 C12: forall t1 string, m1 string, t2 string, m2 string :: !contains(t1, "/") && !contains(t2, "/") && "task_msg/" + t1 + "/" + m1 == "task_msg/" + t2 + "/" + m2 ==> t1 == t2 && m1 == m2
+
+// ---- C17 -------------------------------------------------------------------------------------------
+//@ spec wfMeta(r *ReplicateMeteImpl) bool = r != nil && r.store != nil && r.dropCollectionMsgs != nil && r.dropPartitionMsgs != nil && (forall t string :: t in r.dropCollectionMsgs ==> r.dropCollectionMsgs[t] != nil) && (forall t string :: t in r.dropPartitionMsgs ==> r.dropPartitionMsgs[t] != nil) && distinctInner(r)
+// every task has its own inner map object (they are created by make() in this file only)
+//@ spec distinctInner(r *ReplicateMeteImpl) bool = (forall t1 string, t2 string :: t1 in r.dropCollectionMsgs && t2 in r.dropCollectionMsgs && t1 != t2 ==> r.dropCollectionMsgs[t1] != r.dropCollectionMsgs[t2]) && (forall t1 string, t2 string :: t1 in r.dropPartitionMsgs && t2 in r.dropPartitionMsgs && t1 != t2 ==> r.dropPartitionMsgs[t1] != r.dropPartitionMsgs[t2]) && (forall t string :: t in r.dropCollectionMsgs ==> allocated(r.dropCollectionMsgs[t])) && (forall t string :: t in r.dropPartitionMsgs ==> allocated(r.dropPartitionMsgs[t]))
+//@ spec hasC(r *ReplicateMeteImpl, t, m string) bool = t in r.dropCollectionMsgs && m in r.dropCollectionMsgs[t]
+//@ spec hasP(r *ReplicateMeteImpl, t, m string) bool = t in r.dropPartitionMsgs && m in r.dropPartitionMsgs[t]
+//@ spec mkey(t, m string) string = "task_msg/" + t + "/" + m
+
+//@ func (*ReplicateMeteImpl).UpdateTaskDropCollectionMsg
+//@   props C17
+//@   requires wfMeta(r)
+//@   ensures [memory-is-union] err == nil ==> hasC(r, msg.Base.TaskID, msg.Base.MsgID) && (forall x string :: x in setOf(r.dropCollectionMsgs[msg.Base.TaskID][msg.Base.MsgID].Base.ReadyChannels) <==> (old(hasC(r, msg.Base.TaskID, msg.Base.MsgID) && x in setOf(r.dropCollectionMsgs[msg.Base.TaskID][msg.Base.MsgID].Base.ReadyChannels)) || x in old(setOf(msg.Base.ReadyChannels))))
+//@   ensures [store-is-union] err == nil ==> mkey(msg.Base.TaskID, msg.Base.MsgID) in storeDom && storeVal[mkey(msg.Base.TaskID, msg.Base.MsgID)].Type == api.DropCollectionMetaMsgType && (forall x string :: x in setOf(storeVal[mkey(msg.Base.TaskID, msg.Base.MsgID)].Base.ReadyChannels) <==> (old(hasC(r, msg.Base.TaskID, msg.Base.MsgID) && x in setOf(r.dropCollectionMsgs[msg.Base.TaskID][msg.Base.MsgID].Base.ReadyChannels)) || x in old(setOf(msg.Base.ReadyChannels))))
+//@   ensures [ready-iff-union-equals-target] err == nil ==> (result0 == (forall x string :: x in setOf(r.dropCollectionMsgs[msg.Base.TaskID][msg.Base.MsgID].Base.TargetChannels) <==> x in setOf(storeVal[mkey(msg.Base.TaskID, msg.Base.MsgID)].Base.ReadyChannels)))
+//@   ensures [other-messages-untouched] forall t string, m string :: (t != msg.Base.TaskID || m != msg.Base.MsgID) ==> (hasC(r, t, m) == old(hasC(r, t, m)) && (hasC(r, t, m) ==> r.dropCollectionMsgs[t][m] == old(r.dropCollectionMsgs[t][m])))
+//@   ensures [failure-changes-nothing] err != nil ==> storeDom == old(storeDom) && storeVal == old(storeVal) && (forall t string, m string :: hasC(r, t, m) == old(hasC(r, t, m)))
+//@   ensures wfMeta(r)
+//@   panics never
+
+//@ func (*ReplicateMeteImpl).UpdateTaskDropPartitionMsg
+//@   props C17
+//@   requires wfMeta(r)
+//@   ensures [memory-is-union] err == nil ==> hasP(r, msg.Base.TaskID, msg.Base.MsgID) && (forall x string :: x in setOf(r.dropPartitionMsgs[msg.Base.TaskID][msg.Base.MsgID].Base.ReadyChannels) <==> (old(hasP(r, msg.Base.TaskID, msg.Base.MsgID) && x in setOf(r.dropPartitionMsgs[msg.Base.TaskID][msg.Base.MsgID].Base.ReadyChannels)) || x in old(setOf(msg.Base.ReadyChannels))))
+//@   ensures [store-is-union] err == nil ==> mkey(msg.Base.TaskID, msg.Base.MsgID) in storeDom && storeVal[mkey(msg.Base.TaskID, msg.Base.MsgID)].Type == api.DropPartitionMetaMsgType && (forall x string :: x in setOf(storeVal[mkey(msg.Base.TaskID, msg.Base.MsgID)].Base.ReadyChannels) <==> (old(hasP(r, msg.Base.TaskID, msg.Base.MsgID) && x in setOf(r.dropPartitionMsgs[msg.Base.TaskID][msg.Base.MsgID].Base.ReadyChannels)) || x in old(setOf(msg.Base.ReadyChannels))))
+//@   ensures [ready-iff-union-equals-target] err == nil ==> (result0 == (forall x string :: x in setOf(r.dropPartitionMsgs[msg.Base.TaskID][msg.Base.MsgID].Base.TargetChannels) <==> x in setOf(storeVal[mkey(msg.Base.TaskID, msg.Base.MsgID)].Base.ReadyChannels)))
+//@   ensures [other-messages-untouched] forall t string, m string :: (t != msg.Base.TaskID || m != msg.Base.MsgID) ==> (hasP(r, t, m) == old(hasP(r, t, m)) && (hasP(r, t, m) ==> r.dropPartitionMsgs[t][m] == old(r.dropPartitionMsgs[t][m])))
+//@   ensures [failure-changes-nothing] err != nil ==> storeDom == old(storeDom) && storeVal == old(storeVal) && (forall t string, m string :: hasP(r, t, m) == old(hasP(r, t, m)))
+//@   ensures wfMeta(r)
+//@   panics never
+
+//@ func (*ReplicateMeteImpl).RemoveTaskMsg
+//@   props C17
+//@   requires wfMeta(r)
+//@   ensures [removed-from-store] err == nil ==> !(mkey(taskID, msgID) in storeDom)
+//@   ensures [removed-from-memory-collection] err == nil ==> !hasC(r, taskID, msgID)
+//@   ensures [removed-from-memory-partition] err == nil ==> !hasP(r, taskID, msgID)
+//@   ensures [other-messages-untouched] forall t string, m string :: (t != taskID || m != msgID) ==> (hasC(r, t, m) == old(hasC(r, t, m)) && hasP(r, t, m) == old(hasP(r, t, m)) && (hasC(r, t, m) ==> r.dropCollectionMsgs[t][m] == old(r.dropCollectionMsgs[t][m])) && (hasP(r, t, m) ==> r.dropPartitionMsgs[t][m] == old(r.dropPartitionMsgs[t][m])))
+//@   ensures [failure-changes-nothing] err != nil ==> storeDom == old(storeDom) && (forall t string, m string :: hasC(r, t, m) == old(hasC(r, t, m)) && hasP(r, t, m) == old(hasP(r, t, m)))
+//@   ensures wfMeta(r)
+//@   panics never
